@@ -194,6 +194,25 @@ def check_alvec(o):
         for k, val in kw.items():
             if getattr(b2, k, val) != val:
                 bad.append((tag + "from_vector lost the constructor option %s" % k, {}, None))
+    # a source that does not pin a rotation down (all points in a plane through the origin, or on one line): the parameters are
+    # whatever the vector says - they are not to be re-derived from the end points
+    if cls == "Rotation" and src.shape[1] == 3:
+        flat = src.copy()
+        flat[:, 2] = 0.0
+        line = np.outer(np.arange(1, len(src) + 1, dtype=float), [1.0, -2.0, 0.5])
+        for sname, sp_, kw in (("a planar source, allow_mirror=True", flat, dict(allow_mirror=True)), ("a planar source", flat, {}),
+                               ("a collinear source", line, {}), ("a collinear source, allow_mirror=True", line, dict(allow_mirror=True))):
+            try:
+                d_ = mt.AlignmentRotation(PointCloud(sp_.copy()), PointCloud(sp_ @ M[:3, :3].T), **kw)
+                d2 = d_.from_vector(v)
+            except Exception as e:
+                bad.append(("AlignmentRotation with %s: from_vector raised %s" % (sname, type(e).__name__), {"msg": str(e)[:100]}, None))
+                continue
+            if not L.close(d2.h_matrix, M2, 1e-9) or not L.close(d2.as_vector(), v, 1e-9):
+                bad.append(("AlignmentRotation with %s: from_vector(v) is not the rotation v describes (re-derived from degenerate end points?)" % sname,
+                            {"got": d2.as_vector(), "want": v}, None))
+            elif not L.close(d2.target.points, d2.aligned_source().points, 1e-9):
+                bad.append(("AlignmentRotation with %s: target != aligned source after from_vector" % sname, {}, None))
     return bad
 
 
